@@ -84,6 +84,14 @@ fn do_op(text: &str) {
             h.close();
             push_log("ret done".into());
         }
+        ["add", sig] => {
+            // add_signal through a clone of the handle
+            let sig: i32 = sig.parse().unwrap();
+            let h = HANDLE.lock().unwrap().as_ref().unwrap().clone();
+            let r = std::panic::catch_unwind(std::panic::AssertUnwindSafe(|| h.add_signal(sig)));
+            ADDED.lock().unwrap().push(sig);
+            push_log(format!("ret add {}", match r { Ok(Ok(())) => "ok", Ok(Err(_)) => "err", Err(_) => "panic" }));
+        }
         ["pending"] | ["wait"] => {
             let mut c = CONSUMER.lock().unwrap().take().unwrap();
             if let Consumer::A(ref mut d) = c {
@@ -137,6 +145,8 @@ fn do_op(text: &str) {
 pub fn main() -> i32 {
     silence_panics();
     reset_dispositions();
+    // a leaked action writing into a pipe whose reader is gone must not kill the probe
+    unsafe { libc::signal(libc::SIGPIPE, libc::SIG_IGN); }
     let mut out = Out::new();
     let mut watch: Vec<i32> = Vec::new();
     let mut fill = false;
@@ -249,8 +259,31 @@ pub fn main() -> i32 {
     if status == "done" {
         for h in handles { let _ = h.join(); }
     }
+    // teardown (only after a complete run): drop the instance and every handle, then deliver each
+    // signal it ever watched once more — none of its actions may still be registered
+    let mut leaked: Vec<i32> = Vec::new();
+    if status == "done" {
+        CONSUMER.lock().unwrap().take();
+        HANDLE.lock().unwrap().take();
+        let mut all: Vec<i32> = watch.clone();
+        all.extend(ADDED.lock().unwrap().iter().cloned());
+        all.sort();
+        all.dedup();
+        for sig in all {
+            let before = LATE_STORES.load(std::sync::atomic::Ordering::SeqCst);
+            let mut info: libc::siginfo_t = unsafe { std::mem::zeroed() };
+            info.si_signo = sig;
+            if disposition(sig, Some(verif::handler_addr())).starts_with("lib") {
+                unsafe { verif::deliver(sig, &mut info, std::ptr::null_mut()) };
+            }
+            if LATE_STORES.load(std::sync::atomic::Ordering::SeqCst) != before {
+                leaked.push(sig);
+            }
+        }
+    }
     let g = s.inner.lock().unwrap();
     for l in g.log.iter() { out.line(l); }
+    out.line(&format!("LEAKED {:?}", leaked));
     let sch: Vec<String> = g.schedule.iter().map(|t| t.to_string()).collect();
     out.line(&format!("SCHEDULE {}", sch.join(" ")));
     out.line(&format!("END {}", status));
@@ -258,6 +291,9 @@ pub fn main() -> i32 {
     unsafe { libc::_exit(0) }
 }
 
+static ADDED: Mutex<Vec<i32>> = Mutex::new(Vec::new());
+/// slot stores seen from unscheduled threads (after teardown: an action that should be gone)
+pub static LATE_STORES: std::sync::atomic::AtomicUsize = std::sync::atomic::AtomicUsize::new(0);
 pub static LEARN: std::sync::atomic::AtomicBool = std::sync::atomic::AtomicBool::new(false);
 pub static SLOT_BASE: Mutex<Option<std::sync::Arc<std::sync::atomic::AtomicUsize>>> = Mutex::new(None);
 
